@@ -129,7 +129,7 @@ def check_maps(rec, out, edges, dim, worst, size):
     import lena.structures as ls
     if not out:
         return
-    for m in ("tag", "dup", "drop"):
+    for m in ("tag", "dup", "drop", "seen"):
         exp = rec["maps"][m]
         for drop_ctx in (True, False):
             base = {"scenario": bl.scen_text(rec), "where": "MapBins(%s, drop_bins_context=%s)" % (m, drop_ctx)}
